@@ -270,7 +270,12 @@ func genC15(cs *CaseSet, rng *Rng, tier string, dir string) {
 				ops = append(ops, mkOp(4, "delete-user", l))
 				obs = append(obs, observe(statusOf(res, p)))
 				sawRenameOrDelete = true
-			default: // restart from the files
+			default: // restart from the files (every other one after a crash inside a save: truncated temporary files of
+				// an account update and of an account creation are still lying in the directory)
+				if rng.Bool() {
+					l := pickLogin()
+					must(os.WriteFile(filepath.Join(env.Cfg, "Users", string(l)+".yaml.tmp"), []byte("Login: "+"x\nNa"), 0644))
+				}
 				am, err := mobius.NewYAMLAccountManager(filepath.Join(env.Cfg, "Users") + "/")
 				if err != nil {
 					continue // no account file left: the server would not start
